@@ -55,6 +55,7 @@ def _(c):
     c.array('timepoints', ndim=1, elem='Real')
     c.requires('wf_sim(sim)')
     c.requires('len(timepoints) >= 1')
+    c.requires('sim.dt > 0 and timepoints[0] >= sim.initial_time')       # the grid does not start before the interface's initial time
     c.assume('forall(lambda k: U(k) > 0)', 'uniform_rv() == 0 excluded')
     main = c.loop(0)
     main.also_modifies('kappa', 'ghost:pvals', 'c_current_state', 'c_propensity', 'c_results', 'c_volume_trace', 'v.current_volume')
@@ -63,6 +64,9 @@ def _(c):
                    'and len(c_volume_trace) == num_timepoints and len(c_timepoints) == num_timepoints', label='sizes')
     main.invariant('rule_step == 0 or rule_step == 1', label='rule-flag')
     main.invariant('cell_divided == 0', label='not-yet-divided')
+    # the delta (volume) clock runs from the interface's initial time: never behind the current time, at most one delta ahead
+    main.invariant('delta_t == sim.dt and current_time <= next_queue_time and next_queue_time <= current_time + delta_t', label='delta-clock-aligned-with-the-current-time')
+    main.invariant('current_index == num_timepoints or c_timepoints[current_index] >= current_time', label='next-row-is-not-in-the-past')
     # ---- R_vol
     main.step('arr(%s) == afun("vrules_state", sim, head(arr(c_current_state)), head(ghost("pvals")), head(current_volume), head(current_time), '
               'head(rule_step))' % XR, label='volume-rules-first')
